@@ -60,7 +60,11 @@ template <class T> static void run_T(Choice &c, Ctx &cx)
             StorageCfg q = cf; q.lwork = -1;
             FactorOutcome qo = factor_once<T>(P, q, heapfill, false);
             // (the estimate does not cover the work arrays for small panel/large maxsuper tunings, so double it)
-            long est = 2 * std::max<long>(need, (long)qo.info - n) + 512;
+            // and never less than the measured factors plus the real work arrays (whose tuning-dependent part, 64 KB with the stock
+            // tuning, neither figure covers)
+            long panel = sp_ienv(1), maxsuper = std::max(sp_ienv(3), sp_ienv(7)), rowblk = sp_ienv(4);
+            long tail_true = (2 * panel + 2 + 3) * (long)P.m * (long)sizeof(int) + ((long)P.m * panel + std::max<long>(P.m, (maxsuper + rowblk) * panel)) * (long)sizeof(T) + 16;
+            long est = 2 * std::max<long>(std::max<long>(need, (long)qo.info - n), (long)b.for_lu + tail_true) + 512;
             switch (kind) { case 0: cf.lwork = est; break; case 1: cf.lwork = est + 4; break; case 2: cf.lwork = est + (long)(extra % 4096); break; case 3: cf.lwork = 10 * est; break; default: cf.lwork = 3 * est + (long)(extra % 64); }
             IsoResult r = factor_isolated<T>(P, cf, heapfill, true, o, 10);
             if (cx.dump) cx.d(fmt("config %zu: %s -> %s info=%lld expansions=%d digest=%016llx", i, cf.str().c_str(), r.status == IsoResult::OK ? "returned" : (r.status == IsoResult::HANG ? "HANG" : "CRASH"), o.info, o.expansions, (unsigned long long)o.digest));
@@ -73,7 +77,7 @@ template <class T> static void run_T(Choice &c, Ctx &cx)
             if (cx.dump) cx.d(fmt("config %zu: %s -> info=%lld expansions=%d digest=%016llx", i, cf.str().c_str(), o.info, o.expansions, (unsigned long long)o.digest));
         }
         if (!report(o, cf)) return;
-        if (o.info > k) { if (cf.lwork == 0) { cx.fail("info", fmt("[%s] library allocation returned info=%lld (out of memory?)", cf.str().c_str(), o.info)); return; } cx.label("user-workspace-insufficient"); continue; }
+        if (o.info > k) { if (cf.lwork == 0) { cx.fail("info", fmt("[%s] library allocation returned info=%lld (out of memory?)", cf.str().c_str(), o.info)); return; } if (cf.lwork >= 20 * ((long)b.for_lu) + 5000 && cfgs[i].lwork == -1 && userkinds[ui - 1] == 3) { cx.fail("shortage-in-sufficient-workspace", fmt("[%s] info=%lld (shortage) in a workspace of ten times the doubled requirement, while library allocation succeeds", cf.str().c_str(), o.info)); return; } cx.label("user-workspace-insufficient"); continue; }
         if (o.info != b.info) { cx.fail("info-differs", fmt("[%s] info=%lld but [%s] gave info=%lld", cf.str().c_str(), o.info, cfgs[0].str().c_str(), b.info)); return; }
         if (o.info == 0) {
             if (o.digest != b.digest) { cx.fail("factors-differ", fmt("permutations / factors from [%s] are not bit-identical to those from [%s] (digest %016llx vs %016llx)", cf.str().c_str(), cfgs[0].str().c_str(), (unsigned long long)o.digest, (unsigned long long)b.digest)); return; }
